@@ -137,7 +137,17 @@ def shard(shard_no, nshards, seed, tier, extra):
     for i in range(n):
         r = rng.random()
         info = {}
-        if r < 0.45:
+        if r < 0.2:
+            # the program families of the other checks: nested masks and shifts, read-mask-write, boundary constants in
+            # every sink position, container-cyclic evidence, width-giving constants
+            fam = rng.choice(["mask_shift", "mask_shift", "read_mask_write", "sinks", "cyclic_types", "typed_widths"])
+            if fam == "sinks":
+                code, _ = progs.sinks(rng, evm.boundary_constants())
+            else:
+                code, _ = getattr(progs, fam)(rng)
+            info = {"family": fam, "mutated": True}
+            res.count("family:" + fam)
+        elif r < 0.45:
             code, info = progs.lookalike(rng, items, with_storage=False)
         elif r < 0.85:
             code, info = progs.lookalike(rng, items, with_storage=True, allow_value_side=rng.random() < 0.5)
@@ -170,7 +180,8 @@ def run(tier, seed, t0):
         "storage-free programs full of keccak(key||const), keccak(const)+i, pre-folded keccak(i) constants, masks and "
         "arithmetic whose results reach POP / MSTORE / LOG / RETURN / REVERT / CALL arguments; the same mixed with real "
         "constant, mapping and array accesses (optionally storing a look-alike hash as a *value*); layoutgen programs; "
-        "byte-mutated small real contracts. distinct = bytecode; non-trivial = storage-free or contains look-alike "
+        "byte-mutated small real contracts; a fifth of the cases from the other checks' families (nested mask-and-shift, "
+        "read-mask-write, boundary constants in sink positions, container-cyclic evidence, width-giving constants). distinct = bytecode; non-trivial = storage-free or contains look-alike "
         "hashing / mutation",
         t0, ["the attributable set is computed from the pre-lift key sub-trees of executed storage accesses",
              "closure: constants, constant folds, keccak pre-images below 10000, keccak of constant words, plus one "
